@@ -225,24 +225,30 @@ func (t *treeTracer) detect(sample string, in []byte, limit int64, entry string,
 		}
 		rec.Chain = append(rec.Chain, [2]string{base, m.Extension()})
 	}
-	// independent re-invocation, outside the walk, of every ancestor and of every child
-	// of the reported node, on the examined header with the same limit
+	// independent re-invocation, outside the walk, on the examined header with the same limit: every
+	// node of the reported path and ALL children of every node of that path (so that the
+	// specification can recompute the first-match path without trusting the walk)
 	if t.leaf > 0 && err == nil {
 		leaf := t.nodes[t.leaf-1]
 		h := exact(hdr)
-		for m := leaf; m != nil && m.Parent() != nil; m = m.Parent() {
+		seen := map[int]bool{}
+		add := func(m *mimetype.MIME) {
+			id := t.ids[m]
+			if id == 0 || seen[id] || m.Parent() == nil {
+				return
+			}
+			seen[id] = true
 			v := 0
 			if mimetype.VerifDetector(m)(h, uint32(limit)) {
 				v = 1
 			}
-			rec.Recheck = append(rec.Recheck, [2]int{t.ids[m], v})
+			rec.Recheck = append(rec.Recheck, [2]int{id, v})
 		}
-		for _, c := range childrenOf(leaf) {
-			v := 0
-			if mimetype.VerifDetector(c)(h, uint32(limit)) {
-				v = 1
+		for m := leaf; m != nil; m = m.Parent() {
+			add(m)
+			for _, c := range childrenOf(m) {
+				add(c)
 			}
-			rec.Recheck = append(rec.Recheck, [2]int{t.ids[c], v})
 		}
 	}
 	return rec
